@@ -12,7 +12,7 @@ CONSTANTS
   StartN = 996
   PauseAt = 2
   MaxMsgs1 = 2
-  MaxMsgs2 = 0
+  MaxMsgs2 = 1
   MaxOps = 30
   MaxTampers = 0
   MaxBudgetOps = 0
